@@ -139,6 +139,52 @@ static void build_world(World& w, const J& init) {
         for (auto& e : kv.second.obj) tm.set(tag_of(e.first), tag_of(e.second.s()));
         // entries for tags nothing uses, so that the map has grown past its first capacity
         for (uint32_t q = 0; q < 4; q++) tm.set(make_tag(100 + 2 * q, 1), make_tag(101 + 2 * q, 1));
+        // The same abstract map reached through retractions: every real mapping c -> v is taken out,
+        // two unused keys whose home slots are c's and the one after it are inserted, c is put back
+        // (now displaced past both) and the first unused key is retracted again (set(a, a) / del(a)
+        // alternately) while the second stays.  No insertion follows the retractions, so nothing
+        // re-hashes the table: lookups of c must survive del's re-packing alone.
+        tm.del(make_tag(100, 1));
+        tm.del(make_tag(102, 1));
+        uint64_t cap = tm.capacity;
+        for (int attempt = 0; attempt < 4 && cap > 0; attempt++) {
+            TagMap trial = {};
+            trial.copy_from(tm);
+            std::vector<Tag> first;
+            std::vector<std::pair<Tag, Tag>> real;
+            for (auto& e : kv.second.obj) {
+                Tag c = tag_of(e.first), v = tag_of(e.second.s());
+                if (c != v) real.push_back({c, v});
+            }
+            uint32_t layer = 200;
+            for (auto& cv : real) {
+                uint64_t h = hash<Tag>(cv.first) % cap;
+                Tag ja = 0, jb = 0;
+                for (; layer < 60000 && (ja == 0 || jb == 0); layer++) {
+                    Tag t = make_tag(layer, 1);
+                    uint64_t ht = hash<Tag>(t) % cap;
+                    if (ja == 0 && ht == h) ja = t;
+                    else if (jb == 0 && ht == (h + 1) % cap) jb = t;
+                }
+                trial.del(cv.first);
+                trial.set(ja, make_tag(9999, 2));
+                trial.set(jb, make_tag(9999, 3));
+                first.push_back(ja);
+            }
+            for (auto& cv : real) trial.set(cv.first, cv.second);
+            if (trial.capacity != cap) {  // the table grew: home slots were computed for the wrong size
+                cap = trial.capacity;
+                trial.clear();
+                continue;
+            }
+            for (size_t i = 0; i < first.size(); i++) {
+                if (i % 2 == 0) trial.set(first[i], first[i]);
+                else trial.del(first[i]);
+            }
+            tm.clear();
+            tm = trial;
+            break;
+        }
         w.tagmaps[kv.first] = tm;
     }
 }
